@@ -35,7 +35,7 @@ if os.path.exists(_kf):
 COMMON_ASSUMPTIONS = ["A1", "A6", "A7"]
 
 _TB = ["z3 SMT solver (cvc5 for string queries z3 leaves open)", "pyvc VC generator (/verif/pyvc)", "CPython ast module"]
-from .bounded import query_enum_check, roundtrip_check, gc_check, roles_check, atomic_check, script_check  # noqa: E402
+from .bounded import query_enum_check, roundtrip_check, gc_check, roles_check, atomic_check, script_check, ack_check  # noqa: E402
 from .census import census_check  # noqa: E402
 
 _TBB = ["CPython executing the real functions", "in-memory lmdb/msgpack stand-ins (/verif/stubs)", "sqlite3", "the NIP-01 oracle in /verif/bounded/query_enum.py"]
@@ -48,14 +48,18 @@ PROPERTIES = {
             "extra_checks": [query_enum_check("C12"),
                              script_check("C12", "startup_enum.py", "configured-cap-in-effect", "bounded stand-in (fresh interpreters, real start-up paths)",
                                           "one case per documented start-up order with a configuration file setting max_limit = 3")]},
-    "C10": {"level": "proof", "trusted_base": _TB, "assumptions": ["EV", "LMDB"]},
+    "C10": {"level": "proof", "trusted_base": _TB, "assumptions": ["EV", "LMDB", "COHENUM", "LMDBSTUB"],
+            "extra_checks": [script_check("C10", "coherence_enum.py", "keyspace-coherence-over-histories",
+                                          "bounded stand-in (real LMDBStorage / WriterThread.run / collector over the in-memory lmdb stand-in)",
+                                          "one case per operation of every history of <= 4 (thorough 5) operations out of 21, plus one per injected engine error "
+                                          "(every put/delete of the last operation of histories <= 3 (4)); states reached twice are expanded once")]},
     "C17": {"level": "proof", "trusted_base": _TB, "assumptions": ["A3", "GCSQL", "SQL", "GCENUM"], "extra_checks": [gc_check("C17")]},
     "C20": {"level": "proof", "trusted_base": _TB, "assumptions": ["TCP", "A4", "EV"]},
     "C01": {"level": "proof", "trusted_base": _TB, "assumptions": ["REPL", "REPR", "INDUCT-ATOMS", "SQL", "ENUM", "LMDBSTUB"], "extra_checks": [query_enum_check("C01")]},
     "C04": {"level": "proof", "trusted_base": _TB, "assumptions": ["EV", "ENC", "JSON", "SQL", "RTRIP"], "extra_checks": [roundtrip_check("C04")]},
     "C03": {"level": "proof", "trusted_base": _TB, "assumptions": ["EV", "SQL", "JSON"], "extra_checks": [census_check("C03")]},
     "C05": {"level": "proof", "trusted_base": _TB, "assumptions": ["EV", "A4", "ENUM"], "extra_checks": [query_enum_check("C05")]},
-    "C06": {"level": "proof", "trusted_base": _TB, "assumptions": ["EV", "SQL", "WS", "JSON", "A4"]},
+    "C06": {"level": "proof", "trusted_base": _TB, "assumptions": ["EV", "SQL", "WS", "JSON", "A4", "ACKENUM", "LMDBSTUB"], "extra_checks": [ack_check("C06")]},
     "C07": {"level": "proof", "trusted_base": _TB, "assumptions": ["EV", "SQL", "ATOMIC"], "extra_checks": [atomic_check("C07")]},
     "C08": {"level": "proof", "trusted_base": _TB, "assumptions": ["EV", "SQL"]},
     "C09": {"level": "proof", "trusted_base": _TB, "assumptions": ["EV", "SQL"]},
